@@ -42,6 +42,7 @@ inductive Stmt where
   | ite (c : Expr) (t e : Stmt)
   | loop (c : Expr) (body post : Stmt)
   | range (k v : String) (body : Stmt)          -- `for k, v := range v1.Children`
+  | rangeOver (k v : String) (coll : Expr) (body : Stmt)   -- `for k, v := range coll` (other collections; not used by `Dynamic`)
   | sw (isType : Bool) (tag : Expr) (cases : Stmt)
   | case (label : Expr) (body rest : Stmt)
 deriving DecidableEq, Repr, Inhabited
@@ -74,6 +75,7 @@ def parse : Nat → List Line → Stmt
     | .rangeS =>
       match l.e1, l.e2 with
       | .pair (.var k) (.var v), .var "v1.Children" => .seq (.range k v (parse f blk)) (parse f rest)
+      | .pair (.var k) (.var v), coll => .seq (.rangeOver k v coll (parse f blk)) (parse f rest)
       | _, _ => .bad
     | .switchS => .seq (.sw false l.e1 (parse f blk)) (parse f rest)
     | .typeSwitchS => .seq (.sw true l.e1 (parse f blk)) (parse f rest)
@@ -386,6 +388,7 @@ def exec (R : Ro) : Stmt → Nat → M → Res
     | some false => exec R e f m
   | .loop c body post, f, m => loopN (fun m => evB R m c) (exec R body) (exec R post) f m
   | .range k v body, f, m => rangeN k v (exec R body f) m.cs.length 0 m
+  | .rangeOver _ _ _ _, _, _ => .error (.stuck "range over another collection")
   | .sw isType tag cases, f, m =>
     match exec R cases f { m with tag := tagOf R isType tag } with
     | .ok (m', .brk) => .ok (m', .norm)
